@@ -2,6 +2,7 @@ import YncaVerif.Model.Hex
 import YncaVerif.Model.Conv
 import YncaVerif.Model.Subunit
 import YncaVerif.Model.Framing
+import YncaVerif.Model.Accept
 import YncaVerif.Gen.Enums
 import YncaVerif.Gen.Functions
 import YncaVerif.Gen.Consts
@@ -213,6 +214,85 @@ def stepState (mode : String) (d : DState) (line : String) : DState × String :=
     | none => (d, "bad-op")
   | m, _ => (d, stepLine m line)
 
+/-! ### trace acceptor mode -/
+open Ynca.L4 in
+def parseEv (toks : List String) : Option Ev :=
+  match toks with
+  | ["in", "call", tid, h] => match tid.toNat?, Hex.strOfHex h with
+      | some t, some x => some (.input (.call t x))
+      | _, _ => none
+  | ["in", "close", tid] => tid.toNat?.map (fun t => .input (.callClose t))
+  | ["in", "reg", tid, cb] => match tid.toNat?, cb.toNat? with
+      | some t, some c => some (.input (.reg t c))
+      | _, _ => none
+  | ["in", "unreg", tid, cb] => match tid.toNat?, cb.toNat? with
+      | some t, some c => some (.input (.unreg t c))
+      | _, _ => none
+  | ["in", "dev", h] => (Hex.bytesOfHex h).map (fun b => .input (.dev b))
+  | ["in", "fault"] => some (.input .fault)
+  | ["in", "startR"] => some (.input .startR)
+  | ["in", "publish"] => some (.input .publish)
+  | ["out", "write", h] => (Hex.strOfHex h).map (fun x => .output (.write x))
+  | ["out", "wrej", h] => (Hex.strOfHex h).map (fun x => .output (.writeRejected x))
+  | ["out", "read", h] => (Hex.bytesOfHex h).map (fun b => .output (.readChunk b))
+  | ["out", "rfault"] => some (.output .readFault)
+  | ["out", "msgcb", cb, st, su, fn, v] =>
+    match cb.toNat?, statusOfTok st, optOfTok su, optOfTok fn, optOfTok v with
+    | some c, some st, some su, some fn, some v => some (.output (.msgCb c ⟨st, su, fn, v⟩))
+    | _, _, _, _, _ => none
+  | ["out", "cbret", cb] => cb.toNat?.map (fun c => .output (.cbRet c))
+  | ["out", "disc"] => some (.output .discCb)
+  | ["out", "discret"] => some (.output .discCbRet)
+  | ["out", "portclose"] => some (.output .portClose)
+  | ["out", "exitS"] => some (.output .exitS)
+  | ["out", "exitR"] => some (.output .exitR)
+  | ["out", "ret", tid] => tid.toNat?.map (fun t => .output (.callRet t))
+  | ["out", "craise", tid] => tid.toNat?.map (fun t => .output (.closeRaised t))
+  | ["out", "clock", tid] => tid.toNat?.map (fun t => .output (.logged t))
+  | "snap" :: es =>
+    (es.mapM (fun (e : String) => match e.splitOn ":" with
+      | ["S", h] => (Hex.strOfHex h).map LogEntry.send
+      | ["R", h] => (Hex.strOfHex h).map LogEntry.received
+      | _ => none)).map Ev.snapshot
+  | ["stop"] => some .stop
+  | _ => none
+
+structure AccState where
+  params : L4.Params := ⟨100000, 30000000, 2000000, 1000000, 0⟩
+  hidden : List String := []
+  evs : Array (Nat × L4.Ev) := #[]
+  bad : Option String := none
+
+def accLine (a : AccState) (line : String) : AccState × Option String :=
+  let toks := (line.splitOn " ").filter (· ≠ "")
+  match toks with
+  | ["params", sp, ka, jn, rd, lg, hid] =>
+    match sp.toNat?, ka.toNat?, jn.toNat?, rd.toNat?, lg.toNat? with
+    | some sp, some ka, some jn, some rd, some lg =>
+      ({ a with params := ⟨sp, ka, jn, rd, lg⟩, hidden := if hid == "-" then [] else hid.splitOn "," }, none)
+    | _, _, _, _, _ => ({ a with bad := some line }, none)
+  | ["end"] =>
+    match a.bad with
+    | some l => ({}, some ("BAD-LINE " ++ l))
+    | none =>
+      let v := L4.accept a.params a.hidden a.evs.toList
+      ({}, some (if v.accepted then s!"ACCEPT {v.index} {v.states} {v.maxStates}" else s!"REJECT {v.index} {v.states} {v.maxStates}"))
+  | t :: rest =>
+    match t.toNat?, parseEv rest with
+    | some t, some e => ({ a with evs := a.evs.push (t, e) }, none)
+    | _, _ => ({ a with bad := some line }, none)
+  | [] => (a, none)
+
+partial def accLoop (h : IO.FS.Stream) (out : IO.FS.Stream) (a : AccState) : IO Unit := do
+  let line ← h.getLine
+  if line.isEmpty then return ()
+  let line := (line.dropRightWhile (fun c => c == '\n' || c == '\r'))
+  let (a', o) := accLine a line
+  match o with
+  | some s => out.putStrLn s
+  | none => pure ()
+  accLoop h out a'
+
 partial def loop (mode : String) (h : IO.FS.Stream) (out : IO.FS.Stream) (d : DState) : IO Unit := do
   let line ← h.getLine
   if line.isEmpty then return ()
@@ -225,6 +305,6 @@ def main (args : List String) : IO UInt32 := do
   let mode := args.headD "none"
   let stdin ← IO.getStdin
   let stdout ← IO.getStdout
-  loop mode stdin stdout {}
+  if mode == "accept" then accLoop stdin stdout {} else loop mode stdin stdout {}
   stdout.flush
   return 0
